@@ -263,3 +263,25 @@ Theorem C15_unsized_exact : forall (Q V : Type) keyvals (members : list (member 
             exists m, In m members /\ m_applies Q V m q = true.
 Proof. exact exact_coverage. Qed.
 Print Assumptions C15_unsized_exact.
+
+(* ===================================================================================== *)
+(* C16 -- trait-argument fidelity                                                          *)
+(* ===================================================================================== *)
+
+(* a block written for one instantiation serves exactly that instantiation: whenever it
+   applies to a query, the query's (trait arguments, self type) is an instance of the block's
+   header under the matcher's substitution *)
+Theorem C16_serves_only_its_instantiation : forall W blk q,
+  applies W blk q = true ->
+  exists s, sup (block_header blk) q = Some s /\ equivb (apply s (block_header blk)) q = true.
+Proof. exact applies_only_instances. Qed.
+Print Assumptions C16_serves_only_its_instantiation.
+
+(* per instantiation, the trait is implemented exactly when a member applies (queries carry
+   the trait arguments) *)
+Theorem C16_exact_per_instantiation : forall (Q V : Type) keyvals (members : list (member Q V)),
+  grouping_invariant Q V keyvals members ->
+  forall q, main_applies Q V keyvals members q = true <->
+            exists m, In m members /\ m_applies Q V m q = true.
+Proof. exact exact_coverage. Qed.
+Print Assumptions C16_exact_per_instantiation.
